@@ -217,23 +217,4 @@ def depthSpec : List Dir → Nat → Except PErr Nat
   | .endif :: ds, d => if d = 0 then .error .endIfNotMatched else depthSpec ds (d - 1)
   | .text _ :: ds, d => depthSpec ds d
 
-/-! ## macro expansion: nesting of body expansions -/
-
-/-- The recursion skeleton of `apply_single_macro` for object-like macros: expanding macro `m` (not
-    disabled) disables it, expands every macro mentioned by its body, and enables it again.
-    `bodies m` = the macros named in the body of `m`; `disabled` = `macro_disabled`.  The function
-    returns the number of expansions performed, `none` when the fuel runs out. -/
-def expandCount (bodies : Nat → List Nat) : Nat → List Nat → List Nat → Option Nat
-  | 0, _, _ => none
-  | _ + 1, _, [] => some 0
-  | fuel + 1, disabled, m :: rest =>
-    if disabled.contains m then expandCount bodies fuel disabled rest
-    else
-      match expandCount bodies fuel (m :: disabled) (bodies m) with
-      | none => none
-      | some a =>
-        match expandCount bodies fuel disabled rest with
-        | none => none
-        | some b => some (a + b + 1)
-
 end RsslVerif.Model.Progress
